@@ -335,6 +335,7 @@ def run_bulk(rp, tasks):
         for _ in range(400):
             if ctl.where('intake') == 'done': break
             ctl.grant('intake')
+        run_bulk.intake_events = len(rec)        # what was recorded up to here happened while every launched task ran
         codes = {'task.%06d' % u: c for u, f, c in tasks}
         for uid, f in procs.items():
             f.code = codes[uid]
@@ -446,6 +447,9 @@ def run(ctx):
     from props import noopsuite
     noopsuite.run(ctx, 'C07')
     bulk_part(ctx, rp)
+    from props import watchqueue, timeoutsuite
+    watchqueue.run(ctx, 'C07')
+    timeoutsuite.run(ctx, 'C07')
     scheds = [
         ['intake', 'intake', 'intake', 'intake', 'watcher', 'watcher', ['exit', 0], 'watcher', 'watcher'],
         ['intake', 'intake', 'intake', 'cancel_req', 'intake', ['cancel', 0], 'watcher', ['cancel', 0], ['exit', 1],
@@ -488,6 +492,12 @@ def replay(ctx, data):
     if 'noop' in data['input']:
         from props import noopsuite
         return noopsuite.replay(ctx, data)
+    if 'watch_queue' in data['input']:
+        from props import watchqueue
+        return watchqueue.replay(ctx, data, 'C07')
+    if 'timeout_watcher' in data['input']:
+        from props import timeoutsuite
+        return timeoutsuite.replay(ctx, data, 'C07')
     if data['input'].get('kind') == 'bulk':
         b = [tuple(x) for x in data['input']['tasks']]
         evs = run_bulk(rp, b)
